@@ -14,7 +14,7 @@ def cell(k, t, s, c):
 
 def probe_spec(rng, k, ns=None, nc=None, nt=None, nsw=3, times_grid=6, tdtype='uint64', idtype='uint32',
                tsv=None, single_x=False, last_template_empty=False, whiten=True, sim=True, nloc=2, tl=2, gapped=False,
-               ind_dtypes=('int32', 'int32')):
+               ind_dtypes=('int32', 'int32'), sr=100.):
     nc = nc or rng.randrange(2, 7)
     nt = nt or rng.randrange(2, 5)
     ns = ns or rng.randrange(2, 13)
@@ -35,7 +35,7 @@ def probe_spec(rng, k, ns=None, nc=None, nt=None, nsw=3, times_grid=6, tdtype='u
         pos[0][0] = pos[1][0] + 10.
     ncd = nc + (rng.randrange(1, 4) if gapped else 0)
     spec = dict(
-        tok=k, n_channels=nc, n_channels_dat=ncd, sample_rate=[100., 1000.][k % 2] if False else 100., dtype='int16', offset=0,
+        tok=k, n_channels=nc, n_channels_dat=ncd, sample_rate=sr, dtype='int16', offset=0,
         spike_samples=samples, spike_templates=st, spike_clusters=sc,
         amplitudes=[float(k * 1000 + i) + .5 for i in range(ns)],
         channel_map=rng.sample(range(ncd), nc), channel_positions=pos,
@@ -76,12 +76,15 @@ def merge_case(rng, nprobes=None, **kw):
     kw = dict(kw)
     kw.setdefault('nloc', 2)
     kw.setdefault('tl', 2)
+    kw.setdefault('sr', rng.pick([100., 1000., 2500., 30000.]))      # one sampling rate for all probes of a merge
     kw.setdefault('ind_dtypes', (rng.pick(['int32', 'int64', 'uint32', 'int16', 'uint8']), rng.pick(['int32', 'int64', 'uint32', 'uint16', 'int8'])))
     for i in range(k):
         tsv = [f for f in TSVS if tsv_mode == 0 or (tsv_mode == 1 and rng.random() < .5)]
         probes.append(probe_spec(rng, i, tdtype=tdtype, idtype=idtype, tsv=tsv, **kw))
     if rng.random() < .2 and k > 1:      # optional matrices in only some probes
         del probes[rng.randrange(k)]['similar_templates']
+    if rng.random() < .15 and k > 1:
+        probes[rng.randrange(k)].pop('whitening', None)
     # probe coordinates stored as floats or integers (one dtype for all probes)
     pdt = rng.pick(['float64', 'float64', 'float32', 'int32', 'uint32', 'int64', 'uint16'])
     for p in probes:
